@@ -83,3 +83,18 @@ pub unsafe fn set_opaque_configuration_filters(
 pub fn configuration_should_apply_rule(configuration: &Configuration, path: &Path) -> bool {
     configuration.should_apply_rule(path)
 }
+
+// ---------------------------------------------------------------------------------------------
+// tokens
+
+pub fn token_shift_line(token: &mut crate::nodes::Token, amount: isize) {
+    token.shift_token_line(amount)
+}
+
+// ---------------------------------------------------------------------------------------------
+// rule node steps
+
+/// `convert_luau_number`'s per-number step.
+pub fn convert_luau_number_step(number: &mut crate::nodes::NumberExpression, code: &str) {
+    crate::rules::verif_convert_luau_number(number, code)
+}
